@@ -63,8 +63,8 @@ CHECKS['C16'] = ('E-IO', 'engines/e_io.py',
 
 CHECKS['C05'] = ('E-OMP', 'engines/e_omp.py',
     'deterministic simulation: whole Application runs under a seeded option swarm and, through guarded hooks, a simulated OpenMP schedule (drawn chunking, chunk-to-thread assignment, global execution order, cache thread ids); metamorphic relations to a serial linked-list baseline; write-set monitor at chunk boundaries',
-    'seeded search over (problem: free-surface / two-array wall-bounded / periodic) x --nnps (10 values + knobs) x --cache-nnps x --sort-gids x --reorder-freq x valid/invalid gids x schedule (serial, real OpenMP 1-16 threads, simulated k threads with static/dynamic/guided chunking in a drawn interleaving); R1 bit-identical when sorted, R2 per-particle equality within 1e-7 otherwise, R3 repeat bit-identical; sampled check that a loop chunk writes only its own destination rows. Sampling, not proof.',
-    'simulated schedule has iteration granularity (interference inside one iteration is only covered by real-OpenMP outcome); problems are 3 shipped examples at 25-500 particles, 2-8 steps; hooks H1/H2 in /repo (guarded)',
+    'seeded search over (problem: free-surface / two-array wall-bounded / periodic incompressible / periodic gas dynamics / adaptive h with nested groups) x --nnps (10 values + knobs) x --cache-nnps x --sort-gids x --reorder-freq x valid/invalid gids x schedule (serial, real OpenMP 1-16 threads, simulated k threads with static/dynamic/guided chunking in a drawn interleaving); R1 bit-identical when sorted, R2 per-particle equality within 1e-7 otherwise, R3 repeat bit-identical; sampled check that a loop chunk writes only its own destination rows. Sampling, not proof.',
+    'simulated schedule has iteration granularity (interference inside one iteration is only covered by real-OpenMP outcome); problems are 5 small set-ups (elliptical drop, cavity, periodic Taylor-Green, periodic gas shock tube, adaptive-h block with a nested update_nnps group) at 25-500 particles, 1-12 steps; hooks H1/H2 in /repo (guarded)',
     'DESIGN.md section 3 E-OMP')
 
 CHECKS['C14'] = ('E-INTERP', 'engines/e_interp.py',
@@ -76,7 +76,7 @@ CHECKS['C14'] = ('E-INTERP', 'engines/e_interp.py',
 CHECKS['C03'] = ('E-GROUP', 'engines/e_group.py',
     'deterministic simulation: a pool of generated group trees (tracing equations) executed by the real code generator + compiled program, serially and under a simulated loop schedule, with scripted condition answers / convergence thresholds / start-stop values; refinement check (exact equality of final states, constants and the pre/post/condition/py_initialize/reduce history) against a sequential reference interpreter calling the same Python methods',
     'seeded search over (program from the pool, particle data incl. ghost-tagged particles, condition answers, convergence thresholds, named/numeric start-stop values, t/dt, periodic domain on/off, cache on/off, simulated schedule on/off); exact equality with the literal execution of the documented semantics (group order, hook order per destination and source, index ranges, real flag, iterate/min/max, condition, pre/post, update_nnps incl. ghost refresh, sub-groups). Sampling, not proof.',
-    'programs are from a generated family of 12 tracing equation classes (pool of 10 trees in quick, 120 in thorough), not arbitrary user code; neighbour order fixed by sort_gids; reference interpreter in engines/e_group.py',
+    'programs are from a generated family of 12 tracing equation classes (pool of 3 hand-written + 9 generated trees in quick, 120 in thorough), not arbitrary user code; neighbour order fixed by sort_gids; reference interpreter in engines/e_group.py',
     'DESIGN.md section 3 E-GROUP')
 
 CHECKS['C04'] = ('E-INTEG', 'engines/e_integ.py',
